@@ -2,14 +2,24 @@
 // Oracle: M_resolve (5.2.2 + 5.2.3 merge + segment-list dot removal + the '//'
 // guard) computed from the two TEXTS, compared component for component with the
 // destination URI, plus recomposed text and well-formedness.
-#include "gen.hpp"
-#include "parse_common.hpp"
+#include "hist.hpp"
 #include "pathenum.hpp"
 
 using namespace vf;
 
 static Fields gen(Tape &t) {
   Fields f;
+  // one case in six: reference and base are not parsed from generated texts but are objects a short history of library
+  // calls left behind (resolved, created, normalised, owned, read back); the model is fed with the texts they recompose
+  // to. Decided first (an exhausted tape decodes to the plain arm, never to an empty history).
+  if (t.below(6) == 5) {
+    int hi = t.weighted({4, 3, 2, 1}), hj = t.weighted({4, 3, 2, 1});  // rank among the objects left behind, made ones first
+    int opt = t.chance(2, 5), api = (int)t.below(3), fault = t.chance(3, 4) ? 0 : t.range(1, 8);
+    ops_to_fields(f, g_history(t, SEG_ANY, false, 5));
+    f.seti("hi", hi); f.seti("hj", hj);
+    f.seti("opt", opt); f.seti("api", api); f.seti("fault", fault);
+    return f;
+  }
   LongMode lm(t, true);
   if (lm.on()) f.seti("long", 1);
   GenUri b = g_base(t, /*forceScheme=*/false);
@@ -48,6 +58,8 @@ static std::string classify(const MUri &B, const MUri &R, const MResolved &m, co
   return "";
 }
 
+template <class A> static Verdict judge(const Fields &f, typename A::Uri &pr_uri, typename A::Uri &pb_uri, const MUri &MB, const MUri &MR, const MResolved &m, int opt);
+
 template <class A> static Verdict check_type(const Fields &f, const MUri &MB, const MUri &MR, const MResolved &m, int opt) {
   using Ch = typename A::Ch;
   Parsed<A> pb, pr;
@@ -56,6 +68,11 @@ template <class A> static Verdict check_type(const Fields &f, const MUri &MB, co
   if (pb.rc != 0 || pr.rc != 0) return Verdict::discard();
   if (f.geti("rown")) VF_REQUIRE(A::MakeOwner(&pr.uri) == 0, "%s: uriMakeOwner(reference) failed", A::name());
   if (f.geti("bown")) VF_REQUIRE(A::MakeOwner(&pb.uri) == 0, "%s: uriMakeOwner(base) failed", A::name());
+  return judge<A>(f, pr.uri, pb.uri, MB, MR, m, opt);
+}
+
+template <class A> static Verdict judge(const Fields &f, typename A::Uri &pr_uri, typename A::Uri &pb_uri, const MUri &MB, const MUri &MR, const MResolved &m, int opt) {
+  struct { typename A::Uri &uri; } pr{pr_uri}, pb{pb_uri};
   std::string frozenR = freeze<A>(pr.uri), frozenB = freeze<A>(pb.uri);
   LedgerMM mm;
   typename A::Uri d;
@@ -98,7 +115,9 @@ template <class A> static Verdict check_type(const Fields &f, const MUri &MB, co
   if (T.hasAuth) {
     if (g.user != optstr(T.hasUser, T.user)) return fail("user info differs");
     if (g.hostKind != T.hostKind) return fail("host kind differs, expected " + std::to_string(T.hostKind));
-    if (g.host != std::optional<std::string>(T.host)) return fail("host text differs, expected '" + T.host + "'");
+    // (operands out of a history are known to the model by their recomposed text, which spells an IPv6 literal in full:
+    // there the address is compared by value only)
+    if (!(T.hostKind == HK_IP6 && f.has("n")) && g.host != std::optional<std::string>(T.host)) return fail("host text differs, expected '" + T.host + "'");
     if (T.hostKind == HK_IP4 && memcmp(g.ip.data(), T.ip.data(), 4) != 0) return fail("IPv4 value differs");
     if (T.hostKind == HK_IP6 && g.ip != T.ip) return fail("IPv6 value differs");
     if (g.port != optstr(T.hasPort, T.port)) return fail("port differs");
@@ -124,7 +143,44 @@ template <class A> static Verdict check_type(const Fields &f, const MUri &MB, co
   return Verdict::pass();
 }
 
+static MResolved model_for(const MUri &B, const MUri &R, int *opt) {
+  if (*opt && B.hasScheme && R.hasScheme && B.scheme != R.scheme && ieq(B.scheme, R.scheme)) { *opt = 0; stats().relax("schemes_differ_in_case_only:judged_with_option_off"); }
+  return m_resolve(B, R, *opt != 0);
+}
+
+// reference and base taken from the objects a history leaves behind
+template <class A> static Verdict check_history(const Fields &f, std::string *desc) {
+  World<A> w;
+  for (auto &op : ops_from_fields(f)) w.exec(op);
+  std::vector<int> v = w.made_first();
+  if (v.size() < 2) return Verdict::discard();
+  size_t ri = (size_t)f.geti("hi") % v.size(), rj = (size_t)f.geti("hj") % v.size();
+  if (ri == rj && f.geti("hi") != f.geti("hj")) rj = (rj + 1) % v.size();  // the same object twice only when asked for
+  int i = v[ri], j = v[rj];
+  std::string rt, bt;
+  if (!w.faithful_text(i, &rt) || !w.faithful_text(j, &bt)) { stats().hit("history_operand_not_text_faithful"); return Verdict::pass(); }
+  MUri B = m_split(bt), R = m_split(rt);
+  int opt = (int)f.geti("opt") ? 1 : 0;
+  MResolved m = model_for(B, R, &opt);
+  *desc = "ref(" + w.at(i).origin + ")=" + esc(rt) + " base(" + w.at(j).origin + ")=" + esc(bt) + " opt=" + std::to_string(opt);
+  Verdict r = judge<A>(f, w.at(i).uri, w.at(j).uri, B, R, m, opt);
+  if (r.kind == Verdict::FAIL) r.msg += " {operands out of a history: " + *desc + "}";
+  else { stats().hit("history_ref_origin=" + w.at(i).origin.substr(0, 1)); stats().hit("history_base_origin=" + w.at(j).origin.substr(0, 1)); if (i == j) stats().hit("history_same_object_as_ref_and_base"); }
+  return r;
+}
+
 static Verdict check(const Fields &f) {
+  if (f.has("n")) {
+    for (auto &op : ops_from_fields(f)) if (op.kind == 'P' && !uriref_matcher().matches(op.text)) return Verdict::discard();
+    std::string d, d2;
+    Verdict v = check_history<Api<char>>(f, &d);
+    if (v.kind != Verdict::PASS) return v;
+    v = check_history<Api<wchar_t>>(f, &d2);
+    if (v.kind != Verdict::PASS) return v;
+    stats().hit("arm=operands_from_history");
+    if (!d.empty()) stats().nontrivial(f.text(), d);
+    return Verdict::pass();
+  }
   std::string bt = f.get("base"), rt = f.get("ref");
   if (!uriref_matcher().matches(bt) || !uriref_matcher().matches(rt)) return Verdict::discard();
   MUri B = m_split(bt), R = m_split(rt);
